@@ -28,14 +28,15 @@
       packages it imports, transitively.  [...] Program execution begins by initializing the program and then
       invoking the function main in package main."
    THE ORDER OF INDEPENDENT PACKAGES.  Up to Go 1.20 the specification left the relative order of packages that do
-   not import each other open; since Go 1.21 it says "given the list of all packages, sorted by import path, in
+   not import each other open; since Go 1.21 it says "Given the list of all packages, sorted by import path, in
    each step the first uninitialized package in the list for which all imported packages (if any) are already
-   initialized is initialized" (PiPathOrder below; what gc does).  Scriggo follows the order of the import
-   declarations.  CHOICE MADE HERE: the judge accepts EVERY order the pre-1.21 wording allows, i.e. the output of
-   any topological order of the import graph (PiRefOuts); the number of programs whose output is not the one of
-   the Go 1.21 order is only counted by the check (diagnostic "pkginit_output_differs_from_go1_21_import_path_order").
-   What is demanded under every reading: imported packages first, every package exactly once, variables
-   before init functions, init functions in source order, main last, then main.main.
+   initialized is initialized. This step is repeated until all packages are initialized." (PiPathOrder below; what
+   gc does).  READING JUDGED (the module of /repo says go 1.25 and the property says "behave like gc"): STRICT -
+   the only accepted output is the one of the Go 1.21 order (PiRefOut121).  Two weaker notions are kept to NAME
+   the cause of a difference: PiAccepts / PiRefOuts (the output of some topological order of the import graph:
+   what the wording up to Go 1.20 allowed) and PiDeclOrder (independent packages in the order of the import
+   declarations, depth first: what Scriggo does) - an output that is the one of PiDeclOrder gets the signature
+   cause "independent-packages-not-in-import-path-order", like "import-declaration-order".
 
    IMPLEMENTATION-SHAPED - internal/compiler/emitter.go emitPackage / emitter_statements.go emitImport: the list
    `inits` of a package = for each import declaration in order the list returned for the imported package,
@@ -106,6 +107,13 @@ PiPathFrom(g, P, done) ==
   IN IF ready = {} THEN done ELSE PiPathFrom(g, P, Append(done, PiMin(ready)))
 PiPathOrder(g) == PiPathFrom(g, PiPresent(g), <<>>)
 PiRefOut121(g) == PiRun(g, PiRefUnits(g, PiPathOrder(g)))
+\* not the specification's order (kept to name a cause): the packages in the order of the import declarations, depth
+\* first, each package after the packages it imports and once - independent packages are not sorted by import path
+RECURSIVE PiDeclVisit(_, _, _), PiDeclVisitAll(_, _, _, _)
+PiDeclVisitAll(g, is, j, done) == IF j > Len(is) THEN done ELSE PiDeclVisitAll(g, is, j + 1, PiDeclVisit(g, is[j], done))
+PiDeclVisit(g, i, done) == IF i \in PiRange(done) THEN done ELSE Append(PiDeclVisitAll(g, g.imps[i], 1, done), i)
+PiDeclOrder(g) == PiDeclVisit(g, PiMain(g), <<>>)
+PiRefOutDecl(g) == PiRun(g, PiRefUnits(g, PiDeclOrder(g)))
 
 (* ---------- implementation-shaped: emitPackage.  An init function is identified by [p, k, n]: k > 0 the k-th init
    function of p (the *runtime.Function of a declaration is kept in alreadyEmittedFuncs: n = 0), k = 0 "$initvars"
@@ -149,7 +157,8 @@ PiImplOut(g, legacy) == PiRun(g, PiUnitsOf(PiImplCalls(g, legacy)))
    on the stack", the others are inserted just above the current entry (so that the first is on top).
    The stack holds the packages being processed (the ancestors of the current one: their entries have a tree) AND
    the imports of the ancestors that have not been looked at yet (no tree).  anc = FALSE: any entry of the stack
-   counts (the code as of commit 8d19cdf); anc = TRUE: only the entries that have a tree.
+   counts (the code up to commit 8d19cdf, kept to name the cause of a finding); anc = TRUE: only the entries that
+   have a tree (the code since commit 984b438).
    A stack entry is [p |-> package, t |-> it has been parsed]; the result is "a cycle is reported". *)
 RECURSIVE PiParse(_, _, _, _), PiScan(_, _, _, _, _, _, _)
 PiScan(g, stack, trees, last, decls, j, anc) ==
@@ -169,7 +178,8 @@ PiParse(g, stack, trees, anc) ==
                IN r.err \/ PiParse(g, IF Len(r.stack) = last THEN SubSeq(r.stack, 1, last - 1) ELSE r.stack, trees \cup {n.p}, anc)
 PiParserReportsCycle(g, anc) == PiParse(g, <<[p |-> PiMain(g), t |-> FALSE]>>, {}, anc)
 
-(* ---------- the judged predicate.  PiAccepts(g, out) <=> out \in PiRefOuts(g)  (checked by MC_PkgInit on the outputs of the
+(* ---------- the predicate "some topological order" (since the judge is strict - PiRefOut121 - it only names causes).
+   PiAccepts(g, out) <=> out \in PiRefOuts(g)  (checked by MC_PkgInit on the outputs of the
    reference, of the implementation-shaped model and of the legacy construction), evaluated with ONE run of the
    reference: the order of the packages is read off the observation (the first number of a line identifies the
    event: 10i+1, 10i+2 initialisers, 10i+3, 10i+4 init functions of package i; 10i+9 Dump).  A package without
@@ -188,7 +198,8 @@ PiAccepts(g, out) == PiAcceptsIn(g, out, PiFirstSeen(PiEvents(out)), PiUnitPkgs(
 PiExpectedTags(g) == UNION {{10 * i + k : k \in 1..Len(g.vars[i])} \cup {10 * i + 2 + k : k \in 1..Len(g.inits[i])} : i \in PiPresent(g)}
 PiCause(g, out) ==
   LET ev == PiEvents(out) IN
-  IF \E a, b \in 1..Len(ev) : a < b /\ ev[a] = ev[b] THEN "initialised-twice"
+  IF PiAccepts(g, out) THEN "independent-packages-not-in-import-path-order"     \* (not called for the accepted output)
+  ELSE IF \E a, b \in 1..Len(ev) : a < b /\ ev[a] = ev[b] THEN "initialised-twice"
   ELSE IF PiRange(ev) # PiExpectedTags(g) THEN "initialisation-missing-or-unknown"
   ELSE IF \E a, b \in 1..Len(ev) : a < b /\ ev[a] \div 10 = ev[b] \div 10 /\ ev[a] % 10 \in 3..4 /\ ev[b] % 10 \in 1..2 THEN "init-function-before-variables"
   ELSE IF \E i \in PiPresent(g) : LET ord == PiVarOrder(g.vars[i], i, <<>>) IN
